@@ -34,15 +34,43 @@ package base
 //@ func (*BaseUndoLogManager).decodeUndoLogCtx
 //@   trusted
 //@   ensures true
+// C08: which decompressor / decoder reads an undo log is decided by the context stored beside it.
+// The compressors and the undo-log parsers are the environment (assumed: Decompress undoes Compress
+// of the same compressor, Decode undoes Encode of the same parser; not decided here).
+//@ ext (seata.apache.org/seata-go/pkg/compressor.CompressorType).GetCompressor
+//@   ensures result != nil && result == ufval("compressor.for", c)
+//@ iface (compressor.Compressor).Decompress
+//@   modifies ghost.step_failed
+//@   ensures ghost.step_failed == (old(ghost.step_failed) || result1 != nil)
+//@ iface (compressor.Compressor).Compress
+//@   modifies ghost.dstep_failed
+//@   ensures ghost.dstep_failed == (old(ghost.dstep_failed) || result1 != nil)
+//@ ext (*seata.apache.org/seata-go/pkg/datasource/sql/undo/parser.UndoLogParserCache).GetDefault
+//@   ensures (result1 == nil ==> result0 != nil) && (result1 != nil ==> result0 == nil)
+//@ ext (*seata.apache.org/seata-go/pkg/datasource/sql/undo/parser.UndoLogParserCache).Load
+//@   ensures (result1 == nil ==> result0 != nil && result0 == ufval("parser.for", name)) && (result1 != nil ==> result0 == nil)
+//@ iface (parser.UndoLogParser).Decode
+//@   modifies ghost.step_failed
+//@   ensures ghost.step_failed == (old(ghost.step_failed) || result1 != nil) && (result1 == nil ==> result0 != nil)
+//@ iface (parser.UndoLogParser).Encode
+//@   modifies ghost.dstep_failed
+//@   ensures ghost.dstep_failed == (old(ghost.dstep_failed) || result1 != nil)
 //@ func (*BaseUndoLogManager).getRollbackInfo
-//@   trusted
+//@   prop C08
 //@   modifies ghost.step_failed
 //@   ensures ghost.step_failed == (old(ghost.step_failed) || result1 != nil)
+//@   ensures C08/no-compressor-named-means-raw: !haskey(undoContext, compressorTypeKey) ==> result1 == nil && result0 == rollbackInfo
+//@   ensures C08/decompressed-by-the-named-compressor: haskey(undoContext, compressorTypeKey) ==> called("Decompress#1") && result1 == callres("Decompress#1", 1) && (result1 == nil ==> result0 == callres("Decompress#1", 0))
+//@   at call Decompress#1: assert C08/compressor-from-the-context: arg_self == ufval("compressor.for", undoContext[compressorTypeKey]) && arg_arg0 == rollbackInfo
 //@ func (*BaseUndoLogManager).deserializeBranchUndoLog
-//@   trusted
+//@   prop C08
 //@   modifies ghost.step_failed
-//@   ensures ghost.step_failed == (old(ghost.step_failed) || result1 != nil)
+//@   ensures ghost.step_failed ==> old(ghost.step_failed) || result1 != nil
+//@   nopanic
 //@   ensures result1 == nil ==> result0 != nil
+//@   ensures C08/unknown-serializer-is-an-error: called("Load#1") && callres("Load#1", 1) != nil ==> result1 != nil && !called("Decode#1")
+//@   at call Load#1: assert C08/parser-from-the-context: logCtx != nil && logCtx[serializerKey] != "" ==> arg_name == logCtx[serializerKey]
+//@   at call Decode#1: assert C08/decodes-what-was-decompressed: arg_bytes == rbInfo && (called("Load#1") ==> arg_self == callres("Load#1", 0))
 //@ ext seata.apache.org/seata-go/pkg/datasource/sql/undo/factor.GetUndoExecutor
 //@   modifies ghost.step_failed
 //@   ensures ghost.step_failed == (old(ghost.step_failed) || result1 != nil) && (result1 == nil ==> result0 != nil)
@@ -102,9 +130,13 @@ package base
 //@   modifies ghost.dstep_failed, ghost.dexecs
 //@   ensures ghost.dstep_failed == (old(ghost.dstep_failed) || result1 != nil) && ghost.dexecs == old(ghost.dexecs) + 1
 //@ func (*BaseUndoLogManager).serializeBranchUndoLog
-//@   trusted
+//@   prop C08
 //@   modifies ghost.dstep_failed
-//@   ensures ghost.dstep_failed == (old(ghost.dstep_failed) || result1 != nil)
+//@   ensures ghost.dstep_failed ==> old(ghost.dstep_failed) || result1 != nil
+//@   ensures C08/unknown-serializer-is-an-error: called("Load#1") && callres("Load#1", 1) != nil ==> result1 != nil && !called("Encode#1")
+//@   ensures C08/encoded-by-the-named-parser: result1 == nil ==> called("Encode#1") && result0 == callres("Encode#1", 0)
+//@   at call Load#1: assert C08/parser-by-name: arg_name == serializerType
+//@   at call Encode#1: assert C08/encodes-this-log: arg_self == callres("Load#1", 0) && arg_branchUndoLog == log
 //@ func (*BaseUndoLogManager).encodeUndoLogCtx
 //@   trusted
 //@   ensures true
@@ -118,13 +150,15 @@ package base
 //@   ensures at-most-once: ghost.dexecs <= old(ghost.dexecs) + 1
 
 //@ func (*BaseUndoLogManager).FlushUndoLog
-//@   prop C02
+//@   prop C02 C08
 //@   requires tranCtx != nil && tranCtx.RoundImages != nil && conn != nil && !ghost.dstep_failed
 //@   modifies ghost.dstep_failed, ghost.dexecs
 //@   ensures failure-surfaces: ghost.dstep_failed ==> result != nil
 //@   ensures nothing-to-write: len(tranCtx.RoundImages.before) == 0 && len(tranCtx.RoundImages.after) == 0 ==> result == nil && ghost.dexecs == old(ghost.dexecs)
 //@   ensures written-or-skipped: result == nil ==> ghost.dexecs == old(ghost.dexecs) || (ghost.dexecs == old(ghost.dexecs) + 1 && called("InsertUndoLog#1"))
 //@   at call InsertUndoLog#1: assert log-of-this-branch: arg_record.BranchID == tranCtx.BranchID && arg_record.XID == tranCtx.XID && arg_record.LogStatus == undo.UndoLogStatueNormnal && arg_conn == conn
+//@   at call serializeBranchUndoLog#1: assert C08/serializer-named-in-the-context: arg_serializerType == callarg("encodeUndoLogCtx#1", 1)[serializerKey]
+//@   at call InsertUndoLog#1: assert C08/stored-bytes-match-the-context: arg_record.Context == callres("encodeUndoLogCtx#1", 0) && called("Compress#1") && callres("Compress#1", 1) == nil && arg_record.RollbackInfo == callres("Compress#1", 0) && callarg("Compress#1", 1) == callres("serializeBranchUndoLog#1", 0) && callarg("Compress#1", 0) == ufval("compressor.for", callarg("encodeUndoLogCtx#1", 1)[compressorTypeKey])
 //@   at call serializeBranchUndoLog#1: assert serializes-this-branch: arg_log.Xid == tranCtx.XID && arg_log.BranchID == tranCtx.BranchID
 
 // the parser cache is a lazily initialised process-wide singleton (sync.Once); abstract here
